@@ -1,23 +1,38 @@
+PRIMS = [
+    "abs", "add", "sub", "mul", "div", "opp", "eqb", "ltb", "leb", "float", "frshiftexp", "normfr_mantissa",
+    "of_uint63", "ldshiftexp", "compare", "classify", "sqrt", "next_up", "next_down",
+    "int", "land", "lor", "lsl", "lsr", "lxor",
+]
+# primitive float / int63 operations listed by Print Assumptions for C15_oeq_is_cy_eq (it evaluates
+# Cypher/Compare.v's cy_eq on primitive floats by vm_compute); no FloatAxioms lemma is used
+ALLOWED_PRIMITIVES = sorted(set(
+    ["PrimFloat." + n for n in PRIMS] + ["PrimInt63." + n for n in PRIMS] + ["Uint63." + n for n in PRIMS] + PRIMS
+    + ["PrimInt63.sub", "PrimInt63.add", "PrimInt63.mul", "PrimInt63.eqb", "PrimInt63.ltb", "PrimInt63.leb",
+       "PrimInt63.int", "PrimInt63.mod", "PrimInt63.div", "PrimInt63.compare", "PrimInt63.head0", "PrimInt63.tail0"]))
+
 SPEC = {
     "id": "C15",
     "props_module": "NDB.Props.C15",
     "corr_modules": ["NDB.Corr.C15"],
-    "theorems": ["C15_refuted_backfill", "C15_refuted_label", "C15_refuted_numeric", "C15_refuted",
-                 "C15_seek_scan_state", "C15_index_transparent", "C15_nonvacuous"],
-    "allowed_axioms": [],
+    "theorems": ["C15_refuted_label", "C15_refuted", "C15_fixed_backfill", "C15_fixed_numeric",
+                 "C15_seek_scan_state", "C15_index_transparent", "C15_nonvacuous", "C15_oeq_is_cy_eq"],
+    "allowed_axioms": ALLOWED_PRIMITIVES,
     "harness_pkg": "hx_update",
     "harness_bin": "c15",
     "n": {"quick": 300, "thorough": 12000},
     "harness_timeout": {"quick": 600, "thorough": 3000},
     "trusted_base": [
         "Coq 8.16.1 kernel + vm_compute (no native_compute); coqchk re-check in the thorough tier",
-        "axioms: none (Print Assumptions: Closed under the global context for all theorems)",
-        "hand-written model IndexSem/Model.v of WriteTxn::commit's index maintenance, create_index, lookup_index, the IndexSeek plan "
+        "axioms: none; C15_oeq_is_cy_eq lists the kernel's primitive float / int63 operations (it computes Cypher/Compare.v's cy_eq on primitive floats); all other theorems are closed under the global context",
+        "hand-written model IndexSem/Model.v of WriteTxn::commit's index maintenance, create_index with its backfill, lookup_index, the IndexSeek plan with the numeric twin lookup, "
         "with its residual filters and fallback, and of the label scan; tied to the code by the correspondence check (every generated "
         "history replayed by vm_compute: seek_eval = rows with the index, scan_eval = rows without, lookup = raw lookup_index)",
         "Index/OrderedKey.v (C27) for the value encoding; its constants are regenerated from ordered_key.rs on every run",
         "Cypher equality on scalars `oeq` (float = float as sign-magnitude key equality with both zeros identified, as in C27; "
-        "int = float as `f == i as f64`) validated against the engine by the same correspondence, not proved against IEEE-754",
+        "int = float exact) validated against the engine by the same correspondence; tied to Cypher/Compare.v cy_eq by theorem on "
+        "null/bool/int/string and by vm_compute on every compared pair (floats: bit pattern -> primitive float by SF2Prim)",
+        "numeric_twin exactness (an equal number of the other numeric type is reached through the twin encoding) is not proved: "
+        "`k_numeric = false` is a hypothesis of C15_index_transparent and is evaluated on every query of every case (a hit is a violation)",
         "the index B-tree behaves as a multiset of (key, node id) entries (C26's subject; histories here keep the tree within one leaf)",
         "Rust harness harness/hx_update/src/bin/c15.rs (generator, two-database runner, store dump, Rust mirror used for classification) and lib/vcheck.py",
     ],
@@ -28,7 +43,7 @@ SPEC = {
     ],
     "manifest": {
         "category": "proof",
-        "text": "Model of the property index (maintenance at commit by creation label, no backfill, entries of deleted nodes kept, prefix lookup, seek with residual filters, fallback when the lookup is empty) and of the label scan. Proved for every history: outside the recorded classes (index created over existing data, indexed label not the creation label, int/float equality across kinds, store resynchronisation) the index holds exactly one entry per indexed node and value, and the seek plan returns exactly the rows of the scan plan. The unrestricted statement is refuted in Coq by three witnesses that the harness reproduces on the code (known findings K-C15-backfill, -label, -numeric). Two defects were repaired in /repo (duplicate rows from undeletable equal-value entries; deleted nodes returned through stale entries). Model = implementation is checked on generated histories run on two databases, with compaction and reopen.",
+        "text": "Model of the property index (maintenance at commit by creation label, backfill at creation, entries of deleted nodes kept, prefix lookup of the value and of its numeric twin, seek with residual filters, fallback when the lookup is empty) and of the label scan. Proved for every history: outside the recorded classes (indexed label not the creation label, store resynchronisation) the index holds exactly one entry per indexed node and value — also when it is created over existing data (backfill) — and the seek plan returns exactly the rows of the scan plan; the one remaining hypothesis is the unproved arithmetic fact that the numeric twin conversion is exact, evaluated on every generated query. The unrestricted statement is refuted in Coq by a witness that the harness reproduces on the code (known finding K-C15-label). Four defects were repaired in /repo (duplicate rows from undeletable equal-value entries; deleted nodes returned through stale entries; no backfill; int/float lookups across encodings). The model's scalar equality is tied to Cypher/Compare.v's cy_eq. Model = implementation is checked on generated histories run on two databases, with compaction and reopen.",
         "design_ref": "DESIGN.md §5 C15",
         "level_note": "Trusted: Coq kernel; hand-written model tied to the code by sampled correspondence (not by proof); B-tree as a multiset (C26).",
         "technique": "Rocq proof (invariant over histories: index sound, complete and duplicate-free; sorted-list extensionality) + vm_compute witnesses + two-database differential run with model replay",
